@@ -187,7 +187,6 @@ func testedButIgnored(call *ssa.Call, nres int) string {
 	return ""
 }
 
-
 // droppedOnNonNilPath: some `err != nil` test of the call's error sends the non-nil case down a path on which the
 // error is never used again (returned, passed on, stored, merged) — e.g. `if err == nil { return err }`.
 func droppedOnNonNilPath(call *ssa.Call, nres int) string {
